@@ -3,7 +3,7 @@
    which is run on binary64 against the library in every check. *)
 From Coq Require Import ZArith Floats.
 From mathcomp Require Import all_ssreflect all_algebra.
-From LS Require Import NumOps RcfOps F64Ops Kernels Preprocess KernelsSpec PreprocessSpec Gen_Params.
+From LS Require Import NumOps RcfOps F64Ops Kernels Preprocess KernelsSpec PreprocessSpec PreprocessSpec2 Gen_Params.
 Set Implicit Arguments. Unset Strict Implicit. Unset Printing Implicit Defensive.
 Import Order.TTheory GRing.Theory Num.Theory.
 Local Open Scope ring_scope.
@@ -62,6 +62,18 @@ Theorem C10_apply_reproduces_fit ty (X T0 : mat) i j : Z.le Z0 ty -> cleanm X ->
   cleanx (mget X i j - vget (fit_avg ty X T0) j) ->
   mget (preprocess_apply X (fit_avg ty X T0) (fit_scale ty X T0)) i j = mget (fit_trans ty X T0) i j.
 Proof. exact: apply_reproduces_fit. Qed.
+(* the promised statistic: on complete data the column statistics are equivariant under the
+   preprocessing map, so autoscaling gives unit standard deviation and Pareto scaling sqrt(sd) *)
+Theorem C10_sdev_equivariant (c : vec) a s : cleanv c -> cleanv [seq (x - a) / s | x <- c] -> (0 < size c)%N ->
+  col_sdev [seq (x - a) / s | x <- c] = col_sdev c / `|s|.
+Proof. exact: col_sdev_affine. Qed.
+Theorem C10_autoscaled_unit_sdev (c : vec) a : cleanv c -> (0 < size c)%N -> 0 < col_sdev c ->
+  cleanv [seq (x - a) / col_sdev c | x <- c] -> col_sdev [seq (x - a) / col_sdev c | x <- c] = 1.
+Proof. exact: autoscaled_unit_sdev. Qed.
+Theorem C10_pareto_sdev (c : vec) a : cleanv c -> (0 < size c)%N -> 0 < col_sdev c ->
+  cleanv [seq (x - a) / Num.sqrt (col_sdev c) | x <- c] ->
+  col_sdev [seq (x - a) / Num.sqrt (col_sdev c) | x <- c] = Num.sqrt (col_sdev c).
+Proof. exact: pareto_sdev. Qed.
 End Exact.
 
 (* the literals of the model are the constants the C source uses NOW (Gen_Params.v is
@@ -89,3 +101,6 @@ Print Assumptions C10_missing_independent_var.
 Print Assumptions C10_zero_mean.
 Print Assumptions C10_fit_formula.
 Print Assumptions C10_apply_reproduces_fit.
+Print Assumptions C10_sdev_equivariant.
+Print Assumptions C10_autoscaled_unit_sdev.
+Print Assumptions C10_pareto_sdev.
